@@ -362,9 +362,9 @@ def ev(e, env):
         b = ev(e.func.value, env)
         if isinstance(b, _re.Pattern):        # a compiled constant pattern
             return getattr(b, e.func.attr)(*_args(e.args, env))
-    if isinstance(e, ast.Call) and isinstance(e.func, ast.Name) and isinstance(env.get(e.func.id), LocalFn) and not e.keywords:
+    if isinstance(e, ast.Call) and isinstance(e.func, ast.Name) and isinstance(env.get(e.func.id), LocalFn) and all(k.arg for k in e.keywords):
         lf = env[e.func.id]
-        return call_function(lf.fdef, _args(e.args, env), lf.env)
+        return call_function(lf.fdef, _args(e.args, env), lf.env, kwargs={k.arg: ev(k.value, env) for k in e.keywords})
     if isinstance(e, ast.Call) and isinstance(e.func, ast.Attribute) and all(k.arg for k in e.keywords):
         # a method of one of the rule's stand-in objects: the rule supplies a recording stub (marked _kv_stub)
         b = ev(e.func.value, env)
@@ -433,15 +433,24 @@ class Returned(Exception):
         self.value = value
 
 
-def call_function(fdef, args, env=None):
-    """Value returned by running the body of fdef (subset) with positional args bound to its parameters."""
+def call_function(fdef, args, env=None, kwargs=None):
+    """Value returned by running the body of fdef (subset) with positional (and keyword) args bound to its parameters."""
     e = dict(env or {})
     params = [a.arg for a in fdef.args.args]
     defaults = fdef.args.defaults
-    if len(args) > len(params) or len(args) < len(params) - len(defaults):
+    kwargs = kwargs or {}
+    if len(args) > len(params):
         raise ModelError('minieval: call arity')
     e.update(zip(params, args))
+    for k_, v_ in kwargs.items():
+        if k_ not in params or k_ in params[:len(args)]:
+            raise TypeError(f'{fdef.name}() got an unexpected or repeated keyword argument {k_!r}')      # what the code itself would raise
+        e[k_] = v_
     for k in range(len(args), len(params)):       # parameters left to their default values
+        if params[k] in kwargs:
+            continue
+        if k < len(params) - len(defaults):
+            raise ModelError('minieval: call arity')
         e[params[k]] = ev(defaults[k - (len(params) - len(defaults))], e)
     body = fdef.body
     if body and isinstance(body[0], ast.Expr) and isinstance(body[0].value, ast.Constant) and isinstance(body[0].value.value, str):
@@ -645,6 +654,12 @@ def module_functions(tree, genv):
     for st in tree.body:
         if isinstance(st, ast.FunctionDef) and st.name not in genv:
             genv[st.name] = LocalFn(st, genv)
+    for st in tree.body:
+        # compiled aliases of a module function: x = numba.njit(f) / x = cuda.jit(f, device=True) behave as f
+        if isinstance(st, ast.Assign) and len(st.targets) == 1 and isinstance(st.targets[0], ast.Name) and isinstance(st.value, ast.Call) \
+                and ast.unparse(st.value.func) in ('numba.njit', 'cuda.jit', 'numba.jit') and st.value.args and isinstance(st.value.args[0], ast.Name) \
+                and isinstance(genv.get(st.value.args[0].id), LocalFn) and st.targets[0].id not in genv:
+            genv[st.targets[0].id] = genv[st.value.args[0].id]
     return genv
 
 
